@@ -132,7 +132,65 @@ def _sock():
                          'read or raises BrokenPipeError/OSError')
 
 
+# ------------------------------------------------------------------------------ copy
+def copy_copy(ex, a, k):
+    v = a[0]
+    if isinstance(v, VRef):
+        h = ex.heap[v.addr]
+        if isinstance(h, (HList, HSymList, HDict)):
+            r = ex.alloc(h.clone())
+            if hasattr(h, 'elem_hint'):
+                ex.heap[r.addr].elem_hint = h.elem_hint
+            return r
+    if type(v).__name__ == 'VDictView':
+        return ex.alloc(HDict(dict(ex.heap[v.ref.addr].attrs)))
+    if isinstance(v, (VTuple, VSeq, VInt, VBool, VStr, VSym)) or v is NONE:
+        return v
+    raise Undecided(f'copy.copy({v!r})')
+
+
+def copy_deepcopy(ex, a, k):
+    v = a[0]
+    if isinstance(v, VRef):
+        h = ex.heap[v.addr]
+        if isinstance(h, HSymList):
+            return ex.alloc(HSymList(h.seq))          # fresh list object, equal contents (elements are values)
+        if isinstance(h, HList):
+            return ex.alloc(HList([copy_deepcopy(ex, [x], {}) for x in h.items]))
+        if isinstance(h, HDict):
+            return ex.alloc(HDict({kk: copy_deepcopy(ex, [x], {}) for kk, x in h.items.items()}))
+    if isinstance(v, VTuple):
+        return VTuple([copy_deepcopy(ex, [x], {}) for x in v.items])
+    if isinstance(v, (VSeq, VInt, VBool, VStr, VSym, VReal, VBytes)) or v is NONE:
+        return v          # immutable mathematical values: a deep copy is an equal value
+    raise Undecided(f'copy.deepcopy({v!r})')
+
+
+TEXT['copy'] = 'copy.copy(list) / copy.deepcopy(x): a fresh object equal to x that shares nothing mutable with it; user __deepcopy__ hooks do not raise (T7)'
+
+
+# ------------------------------------------------------------------------------ locks
+def _lock():
+    def enter(ex, a, k):
+        ac = ex.abs_classes['Lock']
+        ex.require('lock', z3.Not(ac.get(ex, a[0], 'held')), 'lock is not already held by this thread (no self-deadlock)',
+                   ex.ghost.get('__cur_node__'))
+        ac.set(ex, a[0], 'held', z3.BoolVal(True))
+        return a[0]
+
+    def exit_(ex, a, k):
+        ac = ex.abs_classes['Lock']
+        ac.set(ex, a[0], 'held', z3.BoolVal(False))
+        return VBool(False)
+    return AbsClass('Lock', fields={'held': smt.Bool},
+                    methods={'__enter__': enter, '__exit__': exit_, 'acquire': enter, 'release': exit_},
+                    text='threading.Lock: with-statement acquires and always releases; held is a ghost flag')
+
+
 def install_common(ex):
+    ex.abs_classes['Lock'] = _lock()
+    ex.ext_models['copy.copy'] = copy_copy
+    ex.ext_models['copy.deepcopy'] = copy_deepcopy
     ex.abs_classes['Socket'] = _sock()
     ex.ext_models['struct.pack'] = struct_pack
     ex.ext_models['struct.unpack'] = struct_unpack
